@@ -10,7 +10,7 @@
 
     The compressor and the page-header encoder are the section variables of PageWriterModel.Finalize. *)
 From Coq Require Import NArith ZArith List Bool.
-From Carquet Require Import Base.Res Enc.DeltaBits Writer.TableSpec Writer.PageWriterModel.
+From Carquet Require Import Base.Res Gen.Writer_gen Enc.DeltaBits Writer.TableSpec Writer.PageWriterModel.
 Import ListNotations.
 Local Open Scope N_scope.
 
@@ -25,7 +25,7 @@ Record cw : Type := mkcw {
 }.
 
 (** target_page_size > 0 ? target_page_size : 1 MiB *)
-Definition target_of (page_size : N) : N := if 0 <? page_size then page_size else 1048576.
+Definition target_of (page_size : N) : N := if 0 <? page_size then page_size else Writer_DEFAULT_PAGE_SIZE.
 
 Definition cw_init (c : column) (page_size : N) : cw :=
   mkcw (pw_init c) [] (target_of page_size) 0 0 0 0.
